@@ -7,6 +7,7 @@ pub fn run(which: &str) {
         "c12_inputs" => c12_inputs(),
         "c14_sites" => crate::c14::run(),
         "c13_inputs" => c13_inputs(),
+        "c02_values" => crate::c02::run(),
         _ => panic!("unknown scenario {which}"),
     }
 }
